@@ -7,6 +7,7 @@ python3 tools/gen_manifest.py >/dev/null
 python3 tools/c2lean.py --repo "${VERIF_REPO:-/repo}" --meta /tmp/skv-setup-meta.json >/dev/null || true
 python3 tools/gen_lemmas.py /tmp/skv-setup-meta.json >/dev/null
 python3 tools/facts.py "${VERIF_REPO:-/repo}" >/dev/null
+python3 tools/probe2lean.py "${VERIF_REPO:-/repo}" >/dev/null
 rm -f /tmp/skv-setup-meta.json
 cd lean
 lake build SkinnyVerif skinny_model skinny_spec
